@@ -254,127 +254,7 @@ Example C16_bridge_direct_nonvacuous :
   = Some [(0, (2, 3), [0], Some (0, 2)); (1, (1, 2), [0], Some (1, 0))].
 Proof. vm_compute. repeat split; reflexivity. Qed.
 
-(* ================= 4. Tree.fit, VineCopula.train_vine, VineCopula.fit ================= *)
-(* get_tree + dynamic dispatch.  RegularTree: see the note in Gen_vinebuild.v (model_regular_* when the Prim loops are not generated) *)
-Theorem C16_bridge_build_first_tree :
-  forall (tie : tie_t) (sel : sel_t) (order : order_t) (ty : vine_type) (level n : nat) (tau : tmat) (prev : list edge),
-  tie_len tie ->
-  gen_build_first_tree ty tau tie sel order level n (np_array tau) prev [] = first_tree tie sel ty n tau order.
-Proof.
-  intros tie sel order ty level n tau prev Ht. destruct ty; cbn [gen_build_first_tree first_tree].
-  - now apply C16_bridge_center_first.
-  - apply C16_bridge_direct_first.
-  - reflexivity.
-Qed.
-Print Assumptions C16_bridge_build_first_tree.
-
-Theorem C16_bridge_build_kth_tree :
-  forall (tie : tie_t) (sel : sel_t) (order : order_t) (ty : vine_type) (level n : nat) (tau : tmat) (prev : list edge),
-  tie_len tie ->
-  gen_build_kth_tree ty tau tie sel order level n (np_array tau) prev [] = kth_tree_opt tie sel ty level n tau prev order.
-Proof.
-  intros tie sel order ty level n tau prev Ht. destruct ty; cbn [gen_build_kth_tree kth_tree_opt].
-  - now apply C16_bridge_center_kth.
-  - apply C16_bridge_direct_kth.
-  - reflexivity.
-Qed.
-Print Assumptions C16_bridge_build_kth_tree.
-
-(* Tree.fit(index, n_nodes, tau_matrix, previous_tree) with the default edges=None: level = index + 1, first tree iff level == 1 *)
-Theorem C16_bridge_tree_fit_first :
-  forall (tie : tie_t) (sel : sel_t) (order : order_t) (ty : vine_type) (n : nat) (tau : tmat) (prev : list edge),
-  tie_len tie ->
-  gen_tree_fit tie sel order ty 0 n tau prev None = Some (first_tree tie sel ty n tau order).
-Proof.
-  intros tie sel order ty n tau prev Ht. unfold gen_tree_fit. cbv zeta.
-  cbn [py_or_nil py_not_list Nat.add Nat.eqb]. now rewrite C16_bridge_build_first_tree.
-Qed.
-Print Assumptions C16_bridge_tree_fit_first.
-
-Theorem C16_bridge_tree_fit_kth :
-  forall (tie : tie_t) (sel : sel_t) (order : order_t) (ty : vine_type) (k n : nat) (tau : tmat) (prev : list edge),
-  tie_len tie ->
-  gen_tree_fit tie sel order ty (S k) n tau prev None = kth_tree_opt tie sel ty (S k + 1) n tau prev order.
-Proof.
-  intros tie sel order ty k n tau prev Ht. unfold gen_tree_fit. cbv zeta.
-  cbn [py_or_nil py_not_list].
-  replace (S k + 1 =? 1) with false by (symmetry; apply Nat.eqb_neq; lia).
-  rewrite C16_bridge_build_kth_tree by assumption. apply opt_eta.
-Qed.
-Print Assumptions C16_bridge_tree_fit_kth.
-
-(* `self.edges = edges or []; if not self.edges: ...`: a non-empty `edges` argument is kept, nothing is built *)
-Theorem C16_bridge_tree_fit_given :
-  forall tie sel order ty index n tau prev (e : edge) (l : list edge),
-  gen_tree_fit tie sel order ty index n tau prev (Some (e :: l)) = Some (e :: l).
-Proof. intros. reflexivity. Qed.
-Print Assumptions C16_bridge_tree_fit_given.
-
-Theorem C16_bridge_tree_fit_given_empty :
-  forall tie sel order ty index n tau prev,
-  gen_tree_fit tie sel order ty index n tau prev (Some []) = gen_tree_fit tie sel order ty index n tau prev None.
-Proof. intros. reflexivity. Qed.
-
-(* the loop `for k in range(1, min(self.n_var - 1, self.truncated))` of train_vine; state = self.trees *)
-Lemma C16_bridge_train_loop tie sel order ty d taus :
-  tie_len tie ->
-  forall (cnt k : nat) (acc : list (list edge)) (prev : list edge),
-  k >= 1 -> length acc = k - 1 ->
-  py_for_opt (seq k cnt) (gen_train_vine_loop1 tie sel order ty d taus) (acc ++ [prev])
-  = match train_rest tie sel ty d taus order cnt k prev with
-    | Some ts => Some (acc ++ prev :: ts)
-    | None => None
-    end.
-Proof.
-  intros Ht. induction cnt as [|c IH]; intros k acc prev Hk Hlen.
-  - reflexivity.
-  - cbn [seq py_for_opt train_rest].
-    unfold gen_train_vine_loop1 at 1. cbv zeta. unfold py_getitem.
-    rewrite nth_error_app2 by lia. replace (k - 1 - length acc) with 0 by lia. cbn [nth_error].
-    replace (k - 1 + 1) with k by lia.
-    destruct k as [|k']; [lia|].
-    rewrite C16_bridge_tree_fit_kth by assumption.
-    replace (S k' + 1) with (S k' + 1) by reflexivity.
-    destruct (kth_tree_opt tie sel ty (S k' + 1) (d - S k') (taus (S k')) prev order) as [t|]; [|reflexivity].
-    rewrite (IH (S (S k')) (acc ++ [prev]) t) by (try rewrite app_length; simpl; lia).
-    destruct (train_rest tie sel ty d taus order c (S (S k')) t) as [ts|]; [|reflexivity].
-    rewrite <- app_assoc. reflexivity.
-Qed.
-
-Theorem C16_bridge_train_vine :
-  forall (tie : tie_t) (sel : sel_t) (order : order_t) (ty : vine_type) (d t : nat) (taus : nat -> tmat),
-  tie_len tie ->
-  gen_train_vine tie sel order ty d t taus [] = train_vine_gen_opt tie sel ty d t taus order.
-Proof.
-  intros tie sel order ty d t taus Ht. unfold gen_train_vine, train_vine_gen_opt. cbv zeta.
-  rewrite C16_bridge_tree_fit_first by assumption.
-  unfold py_range2.
-  rewrite (C16_bridge_train_loop tie sel order ty d taus Ht (Nat.min (d - 1) t - 1) 1 [] _) by (simpl; lia).
-  destruct (train_rest _ _ _ _ _ _ _ _ _) as [ts|]; reflexivity.
-Qed.
-Print Assumptions C16_bridge_train_vine.
-
-(* VineCopula.fit: self.truncated = truncated; self.trees = []; self.train_vine(self.vine_type) *)
-Theorem C16_bridge_vine_fit :
-  forall (tie : tie_t) (sel : sel_t) (order : order_t) (ty : vine_type) (d t : nat) (taus : nat -> tmat),
-  tie_len tie ->
-  gen_vine_fit tie sel order ty d t taus = train_vine_gen_opt tie sel ty d t taus order.
-Proof. intros. unfold gen_vine_fit. cbv zeta. now apply C16_bridge_train_vine. Qed.
-Print Assumptions C16_bridge_vine_fit.
-
-(* with numpy's stable tie-breaking and CPython's sort: the un-suffixed model *)
-Corollary C16_bridge_vine_fit_stable :
-  forall (order : order_t) (ty : vine_type) (d t : nat) (taus : nat -> tmat),
-  gen_vine_fit id_tie pick_py order ty d t taus = train_vine_opt ty d t taus order.
-Proof. intros. apply C16_bridge_vine_fit, tie_len_id. Qed.
-Print Assumptions C16_bridge_vine_fit_stable.
-
-Example C16_bridge_train_nonvacuous :
-  show_vine (gen_vine_fit id_tie pick_py id_order Direct 4 3 (fun _ => tauA))
-  = Some
-      [[(0, (2, 3), [], None); (1, (0, 2), [], None); (2, (0, 1), [], None)];
-       [(0, (0, 3), [2], Some (1, 0)); (1, (1, 2), [0], Some (2, 1))];
-       [(0, (1, 3), [0; 2], Some (0, 1))]] /\
-  option_map (@length _) (gen_vine_fit id_tie pick_py id_order Center 5 2 (fun _ => tauB)) = Some 2 /\
-  option_map (@length _) (gen_vine_fit id_tie pick_py id_order Center 5 0 (fun _ => tauB)) = Some 1.
-Proof. vm_compute. repeat split; reflexivity. Qed.
+(* ================= 4. RegularTree, get_tree, Tree.fit, VineCopula.train_vine, VineCopula.fit ================= *)
+(* The Prim loops of RegularTree are generated as well (tools/vf/vineregulargen.py): the bridges for them, and the theorems about the
+   generated dispatch (gen_build_first_tree / gen_build_kth_tree), Tree.fit, train_vine and VineCopula.fit for all three vine types, which
+   used to close this file, are in C16_regular.v (compiled after this file, which it imports). *)
